@@ -159,7 +159,8 @@ def cases(tier, seed):
              ["T", ["kron", ["dense", 2, 1, F8], ["dense", 1, 3, F8]]], ["sliced", ["dense", 4, 4, F8], ["s", 1, None, None], ["s", None, None, 2]],
              ["sliced", ["dense", 4, 3, F8], ["i", [3, 0, 1]], ["s", None, None, -1]], ["concat", [["dense", 2, 3, F8], ["dense", 1, 3, F8]], 0],
              ["concat", [["dense", 2, 1, F8], ["dense", 2, 2, F8]], 1], ["generic", ["dense", 2, 3, F8]], ["selfadj", 3, C16], ["psd", 2, F8], ["selfadj", 3, F8], ["psd", 3, C16],
-             ["kron", ["selfadj", 2, F8], ["psd", 2, F8]],
+             ["kron", ["selfadj", 2, F8], ["psd", 2, F8]], ["kron", ["selfadj", 2, C16], ["psd", 1, C16]], ["blockdiag", [["selfadj", 2, C16]], [1]],
+             ["kronsum", ["selfadj", 2, C16], ["psd", 1, C16]],
              ["fft", 4, C16], ["kernel", 3, 2, 2, 2, F8]]
     if rich:
         trees += [["dense", 4, 4, F8], ["dense", 2, 4, C16], ["kron", ["dense", 2, 2, F8], ["dense", 2, 2, F8]],
